@@ -103,11 +103,22 @@ def _shift_block(b, lo, bo, ret_to, origin):
     return nb
 
 
+def _not_overridden(fx, path, _memo={}):
+    k = (id(fx), path)
+    if k not in _memo:
+        tr, _, meth = path.rpartition("::")
+        suffix = " as %s>::%s" % (tr, meth)
+        _memo[k] = bool(tr) and not any(q.endswith(suffix) for q in fx.fns)
+    return _memo[k]
+
+
 def inlined(fx, fn, depth=3, stop=(), _seen=None, _cache={}):
     key = (id(fx), fn.path, depth, tuple(sorted(stop)))
     if _seen is None and key in _cache:
         return _cache[key]
     seen = set(_seen or ()) | {fn.path}
+    import expand
+    fn = expand.expanded(fx, fn)
     blocks = [dict(b, origin=b.get("origin", fn.path)) for b in copy.deepcopy(fn.blocks)]
     locals_ = list(fn.locals)
     debug = list(fn.debug)
@@ -122,7 +133,9 @@ def inlined(fx, fn, depth=3, stop=(), _seen=None, _cache={}):
             f = t.get("fn") or {}
             p = f.get("path")
             g = fx.fns.get(p)
-            if g is None or p in seen or p in stop or f.get("kind") not in (None, "item"):
+            if g is not None and f.get("kind") == "virtual" and p not in seen and p not in stop and _not_overridden(fx, p):
+                pass        # a provided trait method nobody overrides: the dyn call can only run this body
+            elif g is None or p in seen or p in stop or f.get("kind") not in (None, "item"):
                 continue
             closure_call = False
             if g.is_closure:
